@@ -132,7 +132,32 @@ def sv(ids, s):
     return "(%s, %s)" % (cq_bool(neg), cq_pos(ids[s[1:] if neg else s]))
 
 
+def legal_prefix(case, res):
+    """Number of leading operations that form a LEGAL history given what the implementation reported about
+    each remove (a remove of a non-canonical name is a no-op, so an add the generator believed legal after it
+    may relate a variable to its own negation).  The property and the model's theorems quantify over legal
+    histories only; the correspondence is evaluated on that prefix."""
+    refs = [Ref()]
+    for i, op in enumerate(case["ops"]):
+        if op[0] == "add":
+            if op[1] >= len(refs) or not refs[op[1]].legal(op[2], op[3]):
+                return i
+            refs[op[1]].add(op[2], op[3])
+        elif op[0] == "remove":
+            if op[1] < len(refs) and i < len(res.get("effective", [])) and res["effective"][i]:
+                refs[op[1]].remove_class(op[2])
+        else:
+            if op[1] >= len(refs):
+                return i
+            refs.append(refs[op[1]].copy())
+    return len(case["ops"])
+
+
 def encode_case(case, res):
+    k = legal_prefix(case, res)
+    if k < len(case["ops"]):
+        case = dict(case, ops=case["ops"][:k])
+        res = dict(res, trace=res["trace"][:k], ids=res["ids"][:k])
     names = sorted({u.lstrip("-") for u in case["universe"]})
     ids = {n: i + 1 for i, n in enumerate(names)}
     U = cq_list([sv(ids, u) for u in case["universe"]])
